@@ -36,7 +36,7 @@ def run(ctx):
         "memory model: release/acquire view semantics; every write to `state` is an RMW so released views form one chain; a failed/successful CAS and the kernel's futex comparison read the latest value; relaxed loads may observe any value",
         "futex contract as in C01; wake(i32::MAX) releases every waiter on the address",
         "the implementation is explored under sequentially consistent interleavings only",
-        "wake-up / liveness (no lost wake-up for the reader and writer queues) is NOT proved: stated in Props/C02.lean; supported by the deadlock and livelock oracles of the schedule exploration",
+        "wake-up: reader queue proved for all executions; writer queue proved for executions whose two hand-shake loads (writer_notify Acquire load, re-read of state) observe current values and without writer_notify wrap (ReachableW); the derived no-deadlock statement is NOT proved: stated in Props/C02.lean, supported by the deadlock and livelock oracles of the schedule exploration",
         "no-panic of the two assert!s is proved only as far as `rw_write_unlock_leaves_unlocked`; the `too many active read locks` assert is reachable in the model through stale loads and is not claimed",
     ]
     table = sync_extract.generate()
